@@ -1595,20 +1595,23 @@ dialSuccess:
 
 	ue.RefreshTtlWithTime(createOption.NowNano)
 
+	// Register in the dialer/transport indexes before publishing in the pool, and
+	// publish only if the endpoint is still current: a health invalidation that
+	// bumped the dialer generation after the snapshot above either finds the
+	// endpoint in the index and retires it, or is seen here. Publishing first
+	// left a window in which the endpoint could already be handed out (and be
+	// written to, which makes it look established) while the invalidation could
+	// not find it.
+	p.registerEndpoint(ue)
 	shard := p.shardFor(key)
 	shard.mu.Lock()
-	shard.pool[key] = ue
-	shard.mu.Unlock()
-	p.registerEndpoint(ue)
-
-	// A health invalidation that ran between the generation snapshot above and
-	// the registration could not find this endpoint in the dialer index, so it
-	// was not retired. It has carried no traffic yet and must not outlive the
-	// invalidation (a later write would otherwise make it look established).
-	if !p.endpointGenerationCurrent(ue) {
+	if ue.IsDead() || !p.endpointGenerationCurrent(ue) {
+		shard.mu.Unlock()
 		ue.retire()
 		return nil, fmt.Errorf("udp endpoint dialer was invalidated during endpoint creation")
 	}
+	shard.pool[key] = ue
+	shard.mu.Unlock()
 
 	// Receive UDP messages.
 	go ue.start()
